@@ -397,6 +397,11 @@ impl FrameQueue {
     }
     */
 
+#[cfg(feature = "verif")]
+impl FrameQueue {
+    pub fn verif_has_frame(&self, frame_id: u32) -> bool { self.frame_log.get_frame(frame_id).is_some() }
+    pub fn verif_log_len(&self) -> usize { self.frame_log.len() as usize }
+}
 
 #[cfg(test)]
 mod tests {
